@@ -63,7 +63,8 @@ def impl(c):
         for i, v in enumerate(c["moves"]):
             (d1 if i % 2 == 0 else d2).lending_move(G["names"][v])
     a = bool(linear_equivalence(d1, d2))
-    d1b = common.build_impl_divisor(G, c["D1"], rng=rng); d2b = common.build_impl_divisor(c["G2"], c["D2"], rng=rng)
+    d1b = common.build_impl_divisor(G, c["D1"], rng=rng) if rng.random() < 0.6 else common.arith_divisor(G, c["D1"], rng)      # arguments that are results of k*H + R, A - B, -(-D)
+    d2b = common.build_impl_divisor(c["G2"], c["D2"], rng=rng) if rng.random() < 0.6 else common.arith_divisor(c["G2"], c["D2"], rng)
     b = bool(linear_equivalence(d2b, d1b))
     return {"fwd": a, "bwd": b}
 
